@@ -102,6 +102,8 @@ type Conn struct {
 	srvReturned bool
 
 	// client side
+	maxRecv      int // grpc.MaxCallRecvMsgSize given when the stream was opened
+	haveMaxRecv  bool
 	cliCtx       context.Context
 	cliCancel    context.CancelFunc
 	cliFinished  bool  // guarded by s2c.mu
@@ -195,7 +197,20 @@ func (car *Carrier) OpenTunnel(ctx context.Context, opts ...grpc.CallOption) (gr
 		return nil, status.FromContextError(err).Err()
 	}
 	c := car.open(ctx, false)
+	c.applyCallOptions(opts)
 	return &fwdClientEnd{c}, nil
+}
+
+// applyCallOptions models the call options that change what the stream does:
+// grpc.MaxCallRecvMsgSize (a received message larger than the limit ends the
+// stream with ResourceExhausted, as in grpc-go's recv path).
+func (c *Conn) applyCallOptions(opts []grpc.CallOption) {
+	for _, o := range opts {
+		if m, ok := o.(grpc.MaxRecvMsgSizeCallOption); ok {
+			c.maxRecv = m.MaxRecvMsgSize
+			c.haveMaxRecv = true
+		}
+	}
 }
 
 func (car *Carrier) OpenReverseTunnel(ctx context.Context, opts ...grpc.CallOption) (grpc.BidiStreamingClient[tunnelpb.ServerToClient, tunnelpb.ClientToServer], error) {
@@ -203,6 +218,7 @@ func (car *Carrier) OpenReverseTunnel(ctx context.Context, opts ...grpc.CallOpti
 		return nil, status.FromContextError(err).Err()
 	}
 	c := car.open(ctx, true)
+	c.applyCallOptions(opts)
 	return &revClientEnd{c}, nil
 }
 
@@ -503,6 +519,11 @@ func (c *Conn) clientRecv(m proto.Message) error {
 			}
 			p.mu.Unlock()
 			simrt.Wake(p.key())
+			if c.haveMaxRecv && len(f.b) > c.maxRecv {
+				e := status.Errorf(codes.ResourceExhausted, "grpc: received message larger than max (%d vs. %d)", len(f.b), c.maxRecv)
+				c.failClient(e)
+				return e
+			}
 			if err := proto.Unmarshal(f.b, m); err != nil {
 				e := status.Errorf(codes.Internal, "grpc: failed to unmarshal the received message: %v", err)
 				c.failClient(e)
